@@ -26,7 +26,9 @@ ASSUMPTIONS = ['default values / initialisations are taken from a pool of C++ ex
 SHARDS = {'thorough': 16}
 
 IDS = ['a', 'B', 'My', 'Data', 'x_1', '_t', 'std', 'string', 'Hal', 'IHeater', 'T9']
-NAMES = ['Calc', 'process', 'f', 'Get_x', '_run', 'operatorX', 'A1']
+# incl. names that start with / contain / equal-but-for-case the names of the owning scopes below
+NAMES = ['Calc', 'process', 'f', 'Get_x', '_run', 'operatorX', 'A1', 'MyToasterReset', 'Sx', 'S_', 'XX',
+         'Outer_1_', 'mytoaster', 'GetMyToaster', 'SS']
 DEFAULTS = ['', '', '123u', '""', 'nullptr', '{}', '{1, 2}', '"a, b"', 'f(1, 2)', "','", '-1',
             'std::string("x=)")']
 CAVS = ['', 'const', 'volatile', 'const volatile']
@@ -534,8 +536,9 @@ def cxx_class(draw, idx):
         prefix = draw(st.sampled_from(['member', 'member', 'static', 'virtual']))
         cav = '' if prefix == 'static' else draw(st.sampled_from(CAVS))
         init = '0' if prefix == 'virtual' and draw(st.integers(0, 2)) == 0 else ''
-        fns.append({'what': 'function', 'ret': ret, 'name': f'fn{k}', 'params': draw(cxx_params()),
-                    'prefix': prefix, 'cav': cav, 'override': False, 'init': init,
+        # every second member function is named after its class (C0reset: the name starts with it)
+        fns.append({'what': 'function', 'ret': ret, 'name': f'{name}reset{k}' if k % 2 else f'fn{k}',
+                    'params': draw(cxx_params()), 'prefix': prefix, 'cav': cav, 'override': False, 'init': init,
                     'contents': '' if init else body_for(ret), 'scope': sc})
     ctors = []
     kind = draw(st.sampled_from(['none', 'default', 'delete', 'custom', 'custom']))
